@@ -1422,6 +1422,7 @@ def substitute_new_temporaries(fn, known_locals: set[str]) -> int:
                             (isinstance(e, ast.UnaryOp) and isinstance(e.operand, ast.Constant))
                     heap = not (_plain(st.value) or _stable_attr_alias(st.value))
                     if len(all_loads) == 1 and len(in_next) == 1 and (_whole_value(nxt, in_next[0]) or (_pure(st.value) and not heap) or _used_before_any_effect(nxt, in_next[0])
+                                                                        or (_in_header_before_effect(nxt, in_next[0]) and not isinstance(nxt, ast.While))
                                                                         or (_pure(st.value) and _reads_before_effects([nxt], v))) and not isinstance(nxt, _FUNCS):
                         _replace_node(nxt, in_next[0], st.value)
                         done = True
@@ -1521,10 +1522,18 @@ def loops_to_comprehensions(fn, comp_locals: dict, known_locals=None) -> int:
                         into_next = (nxt, others[0])
                 if kind is None or (want != kind and into_next is None):
                     continue
-                conds, inner = [], lp.body
-                while len(inner) == 1 and isinstance(inner[0], ast.If) and not inner[0].orelse:
-                    conds.append(inner[0].test)
+                # nested `for` / `if` levels become the generators of one comprehension
+                gens = [ast.comprehension(target=lp.target, iter=lp.iter, ifs=[], is_async=0)]
+                loops_seen = [lp]
+                inner = lp.body
+                while len(inner) == 1 and ((isinstance(inner[0], ast.If) and not inner[0].orelse) or (isinstance(inner[0], ast.For) and not inner[0].orelse)):
+                    if isinstance(inner[0], ast.If):
+                        gens[-1].ifs.append(inner[0].test)
+                    else:
+                        gens.append(ast.comprehension(target=inner[0].target, iter=inner[0].iter, ifs=[], is_async=0))
+                        loops_seen.append(inner[0])
                     inner = inner[0].body
+                conds = [c for g_ in gens for c in g_.ifs]
                 if len(inner) != 1:
                     continue
                 st = inner[0]
@@ -1538,22 +1547,32 @@ def loops_to_comprehensions(fn, comp_locals: dict, known_locals=None) -> int:
                     elt = (st.value.args[0],)
                 if elt is None:
                     continue
-                parts = [lp.iter, *conds, *elt]
+                parts = [*[g_.iter for g_ in gens], *conds, *elt]
                 if any(isinstance(n, ast.Name) and n.id == x for e in parts for n in ast.walk(e)):
                     continue
                 if any(isinstance(n, (ast.Await, ast.Yield, ast.YieldFrom, ast.NamedExpr)) for e in parts for n in ast.walk(e)):
                     continue
-                loop_vars = {n.id for n in ast.walk(lp.target) if isinstance(n, ast.Name)}
+                loop_vars = {n.id for l_ in loops_seen for n in ast.walk(l_.target) if isinstance(n, ast.Name)}
                 inside = {id(n) for n in ast.walk(lp)}
-                if any(isinstance(n, ast.Name) and n.id in loop_vars and id(n) not in inside for n in ast.walk(fn)):
+                # other uses of these names are fine when they belong to another loop / comprehension that binds the name itself first
+                rebound_elsewhere = set()
+                for other in ast.walk(fn):
+                    if isinstance(other, (ast.For, ast.AsyncFor)) and other is not lp and id(other) not in inside:
+                        tn = {n.id for n in ast.walk(other.target) if isinstance(n, ast.Name)}
+                        for sub in [other.target] + other.body:
+                            for n in ast.walk(sub):
+                                if isinstance(n, ast.Name) and n.id in tn:
+                                    rebound_elsewhere.add(id(n))
+                    if isinstance(other, ast.comprehension):
+                        pass
+                if any(isinstance(n, ast.Name) and n.id in loop_vars and id(n) not in inside and id(n) not in rebound_elsewhere for n in ast.walk(fn)):
                     continue
-                gen = ast.comprehension(target=lp.target, iter=lp.iter, ifs=list(conds), is_async=0)
                 if kind == "DictComp":
-                    comp = ast.DictComp(key=elt[0], value=elt[1], generators=[gen])
+                    comp = ast.DictComp(key=elt[0], value=elt[1], generators=gens)
                 elif kind == "ListComp":
-                    comp = ast.ListComp(elt=elt[0], generators=[gen])
+                    comp = ast.ListComp(elt=elt[0], generators=gens)
                 else:
-                    comp = ast.SetComp(elt=elt[0], generators=[gen])
+                    comp = ast.SetComp(elt=elt[0], generators=gens)
                 if into_next is not None:
                     _replace_node(into_next[0], into_next[1], comp)
                     block.remove(lp)
@@ -1651,6 +1670,38 @@ def unroll_literal_dict_loops(fn, known_locals: set) -> int:
     return n_done
 
 
+def for_else_to_any_tests(fn, known_locals: set) -> int:
+    """`for t in it: if c: break` + `else: S` runs S exactly when no element satisfies c: `if not any(c for t in it): S` (the loop
+    variables must be new names that nothing else uses)."""
+    n_done = 0
+    for node in list(_walk_no_defs(fn)):
+        for fld in ("body", "orelse", "finalbody"):
+            block = getattr(node, fld, None)
+            if not (isinstance(block, list) and block and isinstance(block[0], ast.stmt)):
+                continue
+            for i, lp in enumerate(block):
+                if not (isinstance(lp, ast.For) and lp.orelse and len(lp.body) == 1 and isinstance(lp.body[0], ast.If) and not lp.body[0].orelse
+                        and len(lp.body[0].body) == 1 and isinstance(lp.body[0].body[0], ast.Break)):
+                    continue
+                loop_vars = {x.id for x in ast.walk(lp.target) if isinstance(x, ast.Name)}
+                inside = {id(x) for x in ast.walk(lp.target)} | {id(x) for x in ast.walk(lp.body[0].test)}
+                if loop_vars & known_locals or any(isinstance(x, ast.Name) and x.id in loop_vars and id(x) not in inside for x in ast.walk(fn)):
+                    continue
+                if any(isinstance(x, (ast.Await, ast.Yield, ast.YieldFrom, ast.NamedExpr)) for x in ast.walk(lp.body[0].test)) or \
+                        any(isinstance(x, (ast.Await, ast.Yield, ast.YieldFrom, ast.NamedExpr)) for x in ast.walk(lp.iter)):
+                    continue
+                for x in ast.walk(lp.target):
+                    if isinstance(x, ast.Name):
+                        x.ctx = ast.Store()
+                gen = ast.GeneratorExp(elt=lp.body[0].test, generators=[ast.comprehension(target=lp.target, iter=lp.iter, ifs=[], is_async=0)])
+                test = ast.UnaryOp(op=ast.Not(), operand=ast.Call(func=ast.Name(id="any", ctx=ast.Load()), args=[gen], keywords=[]))
+                block[i] = ast.copy_location(ast.If(test=test, body=lp.orelse, orelse=[]), lp)
+                n_done += 1
+    if n_done:
+        ast.fix_missing_locations(fn)
+    return n_done
+
+
 def any_tests_to_loops(fn, known_tests: set) -> int:
     """`if any(c for t in it): <block that always leaves>` is the search loop `for t in it: if c: <block>` (the first hit
     leaves; no hit falls through) - rewritten when the reference does not know the `any(...)` test."""
@@ -1703,6 +1754,7 @@ def normalise_temporaries(tree: ast.Module, modname: str) -> int:
         if key not in r.get("if_tests", {}):
             continue
         params = {a.arg for a in ast.walk(fn) if isinstance(a, ast.arg)}
+        n += for_else_to_any_tests(fn, {x[0] for x in locs.get(key, [])} | params)
         n += unroll_literal_dict_loops(fn, {x[0] for x in locs.get(key, [])} | params)
         n += assignments_to_walrus_tests(fn, list(r.get("if_tests_raw", {}).get(key, {}).values()))
         n += any_tests_to_loops(fn, set(r.get("if_tests", {}).get(key, [])))
